@@ -9,7 +9,7 @@ partial def loop (hin : IO.FS.Stream) (hout : IO.FS.Stream) (st : DState) : IO U
   | ["load", path] =>
     let txt ← IO.FS.readFile path
     let st' := (txt.splitOn "\n").foldl loadLine st
-    hout.putStrLn s!"loaded {st'.corpus.size}"
+    hout.putStrLn s!"loaded {st'.corpus.size + st'.wsprogs.size}"
     hout.flush
     loop hin hout st'
   | _ =>
